@@ -539,6 +539,17 @@ func (sc *SpecScope) call(x *ast.CallExpr) Val {
 			return vBool(sx(">=", v.S, base))
 		}
 		return sc.fail("fresh of non-reference")
+	case "ghostint":
+		bl, ok := arg(0).(*ast.BasicLit)
+		if !ok {
+			return sc.fail("ghostint needs a string literal")
+		}
+		nm, _ := strconv.Unquote(bl.Value)
+		st := sc.cur
+		if st == nil {
+			st = c.entry
+		}
+		return vInt(c.ghostIntGet(st, nm))
 	case "unquote":
 		c.declare("unquote", []string{"Str"}, "Str")
 		v := sc.eval(arg(0))
